@@ -1,6 +1,7 @@
 import Proofs.Lemmas.ForkChoiceUnknown
 import Proofs.Lemmas.ForkChoiceSim
 import Proofs.Lemmas.ForkChoiceTotal
+import Proofs.Lemmas.ForkChoiceW0Bridge
 import Zrnt.ForkChoice.Spec
 import Zrnt.ForkChoice.Old
 /-!
@@ -69,15 +70,10 @@ theorem unknown_reported (pr : PA) (h : WF pr) (hc : Chain pr) (r : Root) (hr : 
 
 example : aGet chainEx.blockSlots 9 = none := by decide
 
-/-- every query of every history that leaves the finalized checkpoint alone — malformed insertions included —
-returns (no panic, no endless loop): the harness machine is never `dead` and the array stays well formed -/
-theorem queries_total_quiet (ops : List Op) (hq : Quiet .none ops) : MInv (run .none ops).1 :=
-  inv_structure_quiet ops .none trivial hq
-
-/-- **queries_total**: no call of an admissible history — finalizations and prunes included — is answered `panic`,
-`blocked` (endless loop or mutex) or `dead` -/
-theorem queries_total (ops : List Op) (ha : Admissible .none ops) : ∀ x ∈ (run .none ops).2, x.isFatal = false :=
-  run_total ops .none trivial ha
+/-- **queries_total**: no call of ANY history — malformed insertions, finalizations and prunes of malformed arrays
+included — is answered `panic`, `blocked` (endless loop or mutex) or `dead` -/
+theorem queries_total (ops : List Op) : ∀ x ∈ (run .none ops).2, x.isFatal = false :=
+  run_total_all_none ops
 
 /-- **The navigation queries refine the specification, before and after pruning.** For every history inside the
 domain (`Admissible`; `UpdateJustified` is unrestricted, so the array may be pruned any number of times): every `GetSlot(root)` answer is the first (lowest) slot at which the root was inserted, or "unknown"; every
@@ -86,11 +82,17 @@ never inserted; every `ClosestToSlot(root, slot)` answer is the node itself or t
 (linear scan), an error for unknown roots and slots before the first one; every `CanonicalChain(anchor, slot)`
 answer is the list of transition ancestors from the GHOST head back to the anchor, inclusive (`canonicalChain_eq_walk`)
 ; every `CanonAtSlot(anchor, slot, withBlock)` answer is the node of the wanted kind at that slot on the canonical
-chain (`canonAtSlot_eq_walk`); and every `Search` with a parent-root and/or slot filter from the first node of a root
-returns the block nodes in the anchor's subtree that match, split into canonical (ancestors-or-self of the head)
-and non-canonical (`search_eq_filter`; the clause `IsSearch op → y = any ∨ x = y` of `AnswersAgree`: searches without
-options and from non-first anchors are unconstrained by the specification) — exactly the answers of the direct
-walks in `Spec.lean` (`Refined` lists the operations covered). -/
+chain — the pre-block (empty-slot) node, the block node, or nil when the slot is empty on that chain; the head
+itself for a slot AFTER the head ("the closest we have"), and since the repair 22758ea the wanted kind also AT the
+slot of the head (`canonAtSlot_eq_walk`); every `Nodes` answer (the keys of `Indices()`) is the list of nodes of
+the inserted tree, after a finalization restricted to the finalized subtree (`nodes_eq`, from
+`ForkChoiceNodesOrd.step_ord`); and every `Search` from the first node of a root returns the block nodes in the
+anchor's subtree that match the parent-root and/or slot filter — with no option at all the heads, i.e. the blocks
+without a child block (since the repair 750a2f5) — split into canonical (ancestors-or-self of the head) and
+non-canonical (`search_eq_filter`; the clause `IsSearch op → y = any ∨ x = y` of `AnswersAgree`: only searches
+from an anchor that is NOT the first node of its root are left unconstrained, see the comment of `Spec.Abs.search`
+for why no contract explains the code's answer there) — exactly the answers of the direct walks in `Spec.lean`
+(`Refined` lists the operations covered). -/
 theorem queries_refine (ops : List Op) (ha : Admissible .none ops) :
     AnswersAgree ops (run .none ops).2 (Spec.run none ops).2 :=
   (refines_run ops .none none trivial trivial trivial ha).1
@@ -102,7 +104,8 @@ def histQ : List Op := [
   .inSub (rt 2) (rt 3), .inSub (rt 1) (rt 4), .inSub (rt 2) (rt 4), .inSub (rt 9) (rt 9), .getSlot (rt 4),
   .getSlot (rt 9), .att 0 (rt 3) 3, .chain (rt 1) 0, .chain (rt 1) 2, .chain (rt 9) 0, .closest (rt 1) 7,
   .closest (rt 2) 0, .closest (rt 9) 3, .canonAt (rt 1) 3 true, .canonAt (rt 1) 2 false, .canonAt (rt 1) 2 true,
-  .search ⟨0, rt 1⟩ (some (rt 1)) none, .search ⟨1, rt 2⟩ none (some 5)]
+  .search ⟨0, rt 1⟩ (some (rt 1)) none, .search ⟨1, rt 2⟩ none (some 5), .search ⟨0, rt 1⟩ none none,
+  .canonAt (rt 1) 3 false, .canonAt (rt 1) 3 true, .canonAt (rt 1) 9 false, .nodes]
 
 example : Admissible .none histQ := admissibleB_sound histQ .none (by decide +kernel)
 example : (run .none histQ).2 = (Spec.run none histQ).2 := by decide +kernel
@@ -118,7 +121,8 @@ def histP : List Op := [
   .justify (rt 4) ⟨1, rt 2⟩ ⟨1, rt 2⟩ (some [32, 32]),
   .inSub (rt 2) (rt 5), .inSub (rt 1) (rt 5), .inSub (rt 2) (rt 3), .getSlot (rt 3), .getSlot (rt 2), .getSlot (rt 1),
   .chain (rt 2) 4, .chain (rt 1) 0, .closest (rt 2) 7, .closest (rt 2) 3, .closest (rt 3) 3,
-  .canonAt (rt 2) 5 true, .canonAt (rt 2) 4 false, .search ⟨4, rt 2⟩ (some (rt 2)) none, .head]
+  .canonAt (rt 2) 5 true, .canonAt (rt 2) 4 false, .search ⟨4, rt 2⟩ (some (rt 2)) none, .search ⟨4, rt 2⟩ none none,
+  .nodes, .head]
 
 example : Admissible .none histP := admissibleB_sound histP .none (by decide +kernel)
 
